@@ -9,7 +9,7 @@ use serde_json::json;
 use crate::core::*;
 
 const GLOB_TOKENS: &[&str] =
-    &["a", "b", ".", "/", "*", "**", "?", "[ab]", "[!a]", "{a,b}", "{a,}", "\\*", "A"];
+    &["a", "b", ".", "/", "*", "**", "?", "[ab]", "[!a]", "{a,b}", "{a,}", "\\*", "A", "{a,/**}", "{/**,a}", "{**/a,b}", "{b,**/a}"];
 const PATH_BYTES: &[u8] = b"ab./-A";
 
 // ---------------------------------------------------------------------------
@@ -494,11 +494,17 @@ pub fn run(args: &Args) -> ! {
     type Member = (String, usize, usize);
     let mut sets: Vec<(String, Vec<Member>)> = vec![];
     let big_opts: Vec<usize> = match tier {
-        Tier::Quick => vec![0, 2, 5, 15],
+        Tier::Quick => vec![0, 2, 5, 10, 15],
         Tier::Thorough => (0..nopts).collect(),
     };
     for &oi in big_opts.iter() {
-        let members: Vec<Member> = (0..globs.len())
+        // (quick tier: the all-glob sets hold the globs of length <= 2; every
+        // longer glob is still covered alone and in the pool pairs)
+        let upto = match tier {
+            Tier::Quick => seq_count(GLOB_TOKENS.len(), 2),
+            Tier::Thorough => globs.len(),
+        };
+        let members: Vec<Member> = (0..upto)
             .filter_map(|gi| row_id_of_matrix[gi * nopts + oi].map(|r| (globs[gi].clone(), oi, r)))
             .collect();
         sets.push((format!("all-globs/opts{}", oi), members));
